@@ -421,7 +421,7 @@ def run(ctx):
     ctx.correspondence("load_final percentage arithmetic == model", "c20f", IMPORTS,
                        [("[end_code (load_final %d %d %s)]" % (nl, nt, "true" if t else "false"), e) for (nt, nl, t), e in zip(fcases, fexp)])
     # ---- round trips
-    rts = [(n_, named, fmt) for n_ in ((0, 1, 2, 5) if ctx.tier == "quick" else (0, 1, 2, 3, 5, 9)) for named in (False, True) for fmt in ("xyz", "cif")]
+    rts = [(n_, named, fmt) for n_ in ((0, 1, 2, 5, 11) if ctx.tier == "quick" else (0, 1, 2, 3, 5, 9, 11, 23)) for named in (False, True) for fmt in ("xyz", "cif")]
     for n_, named, fmt in rts:
         ok, detail = roundtrip(n_, named, fmt)
         ctx.evaluations += 1
